@@ -486,7 +486,7 @@ func (x *approvex) runSpaces(spaces []*space) {
 			if !x.ctx.Mine(base + i) {
 				continue
 			}
-			if i%256 == 0 && x.ctx.Expired() {
+			if done%256 == 0 && x.ctx.Expired() {
 				x.res.Incomplete = append(x.res.Incomplete,
 					fmt.Sprintf("deadline in space %s at index %d of %d (shard %d)", sp.name, i, sp.n, x.ctx.Shard))
 				return
